@@ -167,6 +167,9 @@ def run(ctx):
                               {'sequence': seq})
         ctx.count('reuse_sequences')
 
+    from vf import lib
+    lib.repo_tests_under_monitor(ctx, 'C06', ['munkres'])
+
     # --- make_cost_matrix: elementwise inversion, input untouched
     for _ in range(ctx.n(2000, 20000)):
         P = gen_random(rng, rng.choice(kinds))
